@@ -50,6 +50,12 @@ def delimited_pair(t, rng):
     between delimiters - some of them holding a blank (double quotes only) - and expected back bare"""
     import copy
     shown, bare = copy.deepcopy(t), copy.deepcopy(t)
+    for _k, c in bare["items"]:
+        for o in c.get("opts", []):
+            if o["k"] == "ref":
+                for f in ("table", "schema"):
+                    if o.get(f) and o[f][:1] in '"`[':
+                        o[f] = o[f][1:-1]          # a delimited reference target loses its delimiters as well
     for (k1, c1), (k2, c2) in zip(shown["items"], bare["items"]):
         if rng.random() < 0.3:
             nm = "%s %s" % (rng.choice(SPACED), c1["name"][-3:])
